@@ -346,6 +346,19 @@ def arm_summary(fn, edge, all_edges=None, crate=None, depth=0):
                 binops.add(rhs['bop'])
             if st['lhs']['local'] == 0 and not st['lhs']['proj']:
                 rets.append(stmt_value(fn, st))
+            # closures built inside the arm (arguments of map_or, fold, ...) belong to the arm
+            if rhs['rv'] == 'agg' and rhs['kind'].get('closure') and crate is not None:
+                cf = crate.fns.get(rhs['kind']['closure'])
+                if cf is not None:
+                    for cb, ct in cf.calls():
+                        calls.append((cf.callee_name(ct), ct))
+                        for a in ct['args']:
+                            if a.get('op') == 'const' and a.get('fn'):
+                                fnrefs.add(a['fn'])
+                    for _b, _s, cst in cf.stmts():
+                        crhs = cst['rhs']
+                        if crhs['rv'] == 'bin' and crhs['bop'] not in ('Eq', 'BitAnd', 'Sub', 'Ne'):
+                            binops.add(crhs['bop'])
         t = blk['term']
         if t['t'] == 'switch':
             p = op_place(t['discr'])
@@ -763,10 +776,20 @@ def rule_subpatterns(rep, crate):
                             if var == 'Some' and fn.edge_dominates((c['bb'], c['f']), bi):
                                 some_ok = True
                 somes = [x for kind, bi, si, x in fn.defs().get(0, []) if kind == 'stmt' and x['rhs']['rv'] == 'agg' and x['rhs']['kind'].get('variant') == 'Some' and bi in fn.live_blocks()]
-                if not none_ok or not some_ok or len(somes) != 1:
+                # equivalent form: (!was_error).then_some(text)
+                ts = [(b, t) for b, t in find_calls(fn, r'<impl bool>::then_some$') if t['dest']['local'] == 0 and not t['dest']['proj']]
+                then_some_ok = False
+                if len(ts) == 1 and not somes:
+                    c0 = trace(fn, ts[0][1]['args'][0])
+                    if c0[0] == 'un' and c0[2]['rhs'].get('uop') == 'Not':
+                        src = fn.slice(c0[2]['rhs']['a'], through_calls=False)
+                        then_some_ok = bool(src.locals & flag_locals)
+                if then_some_ok:
+                    pass
+                elif not none_ok or not some_ok or len(somes) != 1:
                     rep.viol(rb, 'subst:result', 'None is not returned exactly when the error flag is set (Some on the other edge)', loc(fn))
                 # hit: the pushed fragment is the stored pattern
-                pushes = [(b, t) for b, t in find_calls(fn, r'vec::Vec::<T, A>::push$') if fn.edge_dominates(hit, b)]
+                pushes = [(b, t) for b, t in find_calls(fn, r'vec::Vec::<T, A>::push$|string::String::push_str$') if fn.edge_dominates(hit, b)]
                 pd = [desc(fn, t['args'][1]) for b, t in pushes]
                 rep.inst(rb, 'subst:hit', detail=pd)
                 if len(pushes) != 1 or not re.fullmatch(r'call:<std::string::String as std::ops::Deref>::deref\(call:std::collections::HashMap::<K, V, S, A>::get\.0\.pattern\)', pd[0]):
@@ -786,6 +809,14 @@ def rule_subpatterns(rep, crate):
                     tails.append(ds)
             elif any('count' in d or 'chars' in d for d in ds):
                 rep.viol(rb, 'subst:tail-guard-units', 'a position in the pattern text is compared with a character count (%s): offsets are byte offsets, text after the last reference is dropped for non-ASCII patterns' % ds, loc(fn, fn.blocks[sb]['term']['line']))
+        # equivalent form: an unconditional append of pattern[current_pos..] after the loop (appending the empty rest is harmless)
+        from mirlib import loop_depth
+        for b, t in find_calls(fn, r'vec::Vec::<T, A>::push$|string::String::push_str$'):
+            d1 = desc(fn, t['args'][1])
+            if loop_depth(fn, b) == 0 and re.match(r'^call:core::str::traits::<impl std::ops::Index<I> for str>::index\(param2,agg:std::ops::RangeFrom\{', d1):
+                rets = [bb for bb in fn.live_blocks() if fn.blocks[bb]['term']['t'] == 'return']
+                if rets and all(fn.dominates_block(b, r) for r in rets):
+                    tails.append(['unconditional', d1[:80]])
         rep.inst(rb, 'subst:tail', detail=tails)
         if not tails:
             rep.viol(rb, 'subst:tail-missing', 'the text after the last subpattern reference is not appended under `current_pos < pattern.len()`', loc(fn))
